@@ -117,9 +117,31 @@ package openapi3
 //@   requires paths != nil
 //@   modifies *
 //@   loop 0 invariant seenset() == keys(keys) && fresh(keys)
-//@   loop 1 invariant forall k string :: has(old(paths.m), k) ==> keys(keys)[k]
+//@   loop 1 invariant forall k string :: old(has(paths.m, k)) ==> keys(keys)[k]
 //@   loop 1 invariant forall k string :: keysPrefix(keys, #i)[k] ==> (has(normalizedPaths, normOf(k)) && normalizedPaths[normOf(k)] == k)
 //@   loop 1 invariant forall n string :: has(normalizedPaths, n) ==> (keysPrefix(keys, #i)[normalizedPaths[n]] && normOf(normalizedPaths[n]) == n)
-//@   ensures [no-conflicting-templates] result == nil ==> (forall p string, q string :: has(old(paths.m), p) && has(old(paths.m), q) && p != q ==> normOf(p) != normOf(q))
+//@   ensures [no-conflicting-templates] result == nil ==> (forall p string, q string :: old(has(paths.m, p)) && old(has(paths.m, q)) && p != q ==> normOf(p) != normOf(q))
 //@   option safety-tags C20
 //@   tag C04-attempted
+
+// ---- encodings: an encoding is accepted only if its headers are
+//@ spec identOK(s string) bool
+//@ spec headerRefOK(h *HeaderRef) bool
+//@ func ValidateIdentifier
+//@   modifies nothing
+//@   defines (result == nil) <==> identOK(value)
+//@ func (*HeaderRef).Validate
+//@   modifies *
+//@   preserves @C04 []string, Encoding.*, map[string]*HeaderRef
+//@   defines (result == nil) <==> headerRefOK(x)
+//@ func (*Encoding).SerializationMethod
+//@   modifies nothing
+//@   ensures result != nil
+//@ func (*Encoding).Validate
+//@   modifies *
+//@   loop 0 invariant seenset() == keys(headers) && fresh(headers)
+//@   loop 1 invariant forall k string :: old(has(encoding.Headers, k)) ==> keys(headers)[k]
+//@   loop 1 invariant forall k string :: keysPrefix(headers, #i)[k] ==> identOK(k) && headerRefOK(old(encoding.Headers[k]))
+//@   ensures [headers-validated] result == nil && encoding != nil ==> (forall k string :: old(has(encoding.Headers, k)) ==> identOK(k) && headerRefOK(old(encoding.Headers[k])))
+//@   option safety-tags C20
+//@   tag C04
